@@ -33,6 +33,8 @@ logging.getLogger().setLevel(logging.ERROR)
 
 from .. import c14_exec as X     # noqa: E402
 from .. import c14_replay as RP  # noqa: E402
+from .. import c14_trace as TR   # noqa: E402
+from .. import tlaval            # noqa: E402
 
 DEFECTS = {
     # cfg suffix -> (invariant TLC must find violated, what the switched-off guard stands for)
@@ -267,6 +269,110 @@ def defect_replays(ctx, futs):
     return summary
 
 
+# --------------------------------------------------------------------------- walks beyond the exhaustive bound
+def parse_sim_trace(path):
+    """A TLC -simulate trace file -> (labels, parsed states)."""
+    labels, states = [], []
+    with open(path) as f:
+        txt = f.read()
+    import re
+    for m in re.finditer(r"\\\* <(.*?) line \d+, col \d+ to line \d+, col \d+ of module Accel>\nSTATE_\d+ == \n(.*?)\n\n", txt, re.S):
+        labels.append(m.group(1))
+        states.append(tlaval.parse_state(m.group(2)))
+    return labels[1:], states
+
+
+def _walk_task(job):
+    k, labels, models, seed = job
+    G = _G
+    scratch = os.path.join(G["scratch"], f"p{os.getpid()}")
+    root = os.path.join(scratch, "walk")
+    shutil.rmtree(root, ignore_errors=True)
+    os.makedirs(scratch, exist_ok=True)
+    X.create(root)
+    out = []
+    src_ans = None
+    for i, lab in enumerate(labels):
+        try:
+            res = RP.step(root, scratch, models[i], lab, models[i + 1], src_ans, seed=seed + k, light=True)
+        except Exception as e:
+            import traceback
+            res = {"lab": lab, "who": "?", "opts": 0, "shape": [f"harness exception {type(e).__name__}: {e}"],
+                   "viol": [], "ans": None, "ans_n": None, "tb": traceback.format_exc()[-1500:]}
+        res.pop("ans_w", None)
+        out.append(res)
+        if res["ans"] is None or res["shape"]:
+            break
+        src_ans = {"f": res["ans"], "n": res["ans_n"]}
+        res.pop("ans", None)
+    shutil.rmtree(root, ignore_errors=True)
+    return k, out
+
+
+def walks(ctx, num, depth, ncommits):
+    """TLC -simulate draws behaviours of Accel beyond the exhaustive bound (more commits, longer); each is
+    executed on a real repository and the recorded history is handed back to TLC (AccelTrace)."""
+    d = ctx.tmpdir("sim")
+    cfg = os.path.join(d, "sim.cfg")
+    with open(os.path.join(tlc.SPECS, "Accel_mc.cfg")) as f:
+        txt = f.read()
+    import re
+    txt = re.sub(r"N = \d+", f"N = {ncommits}", txt)
+    txt = re.sub(r"MaxDepth = \d+", "MaxDepth = 0", txt)
+    txt = re.sub(r"MaxPacks = \d+", "MaxPacks = 3", txt)
+    txt = txt.replace("VIEW view\n", "").replace("INVARIANT Exact\n", "")
+    with open(cfg, "w") as f:
+        f.write(txt)
+    nw = 4
+    res = tlc.run("Accel.tla", cfg, workers=nw, timeout=600, simulate=f"file={d}/t,num={max(1, num // nw)}", depth=depth,
+                  seed=ctx.seed + 1)
+    ctx.add_tlc(f"Accel simulate (N={ncommits}, depth {depth}: Transparent, RefsTransparent, StaleRejected on every state)", res)
+    jobs = []
+    for k, fn in enumerate(sorted(x for x in os.listdir(d) if x.startswith("t_"))):
+        labels, states = parse_sim_trace(os.path.join(d, fn))
+        if labels:
+            jobs.append((k, labels, [RP.norm_model(s) for s in states], ctx.seed))
+    _G.update(scratch=ctx.scratch)
+    traces, meta = [], {}
+    nsteps = 0
+    with mp.get_context("fork").Pool(min(14, os.cpu_count() or 4)) as pool:
+        for k, out in pool.imap_unordered(_walk_task, jobs, chunksize=1):
+            labels, models = jobs[k][1], jobs[k][2]
+            steps = []
+            for i, r in enumerate(out):
+                nsteps += 1
+                ctx.count()
+                if r["viol"] or r["shape"]:
+                    report(ctx, r, labels[:i + 1], models[i + 1], {"models": models[:i + 2], "seed": ctx.seed + k})
+                if r.get("real") is not None and r.get("ans_n") is not None:
+                    act, args = RP.parse_label(labels[i])
+                    steps.append({"act": TR.act_record(act, list(args)), "st": TR.st_record(r["real"], 6),
+                                  "obs": TR.obs_record(r["ans_n"], r["real"]["n"])})
+            if steps:
+                tid = 100000 + k
+                traces.append({"tid": tid, "free": False, "steps": steps})
+                meta[tid] = labels
+                ctx.nontrivial(("walk", tuple(labels)))
+    ctx.log(f"walks: {len(jobs)} behaviours ({nsteps} steps) of up to {depth} steps over {ncommits} commits executed")
+    ctx.cov["walks"] = {"behaviours": len(jobs), "steps": nsteps, "commits": ncommits, "depth": depth}
+    return traces, meta
+
+
+def judge(ctx, traces, meta, label):
+    """TLC decides: is every recorded step a step of Accel, is every accelerator-free answer the defined one."""
+    verdicts = TR.validate(ctx, traces, label)
+    asis = 0
+    for t in traces:
+        _, tid, verdict, fail_at, drift_at, n_asis = verdicts[t["tid"]]
+        asis += n_asis
+        ctx.validated()
+        if verdict != "ok":
+            ctx.drift_event(f"{label}: answer without acceleration data differs from the definition ({verdict}) at step {fail_at} of {meta[tid]}")
+        if drift_at:
+            ctx.drift_event(f"{label}: step {drift_at} of {meta[tid]} is not a step of Accel (projected state {json.dumps(t['steps'][drift_at - 1]['st'])[:300]})")
+    return asis
+
+
 # --------------------------------------------------------------------------- entry
 def run(ctx):
     for fn in os.listdir(ctx.replay_dir):          # replay files of earlier runs
@@ -278,19 +384,37 @@ def run(ctx):
     fut_mc = pool.submit(tlc.run, "Accel.tla", mc_cfg, workers=ctx.pick(4, 8), timeout=ctx.pick(300, 1500),
                          coverage=not ctx.quick)
     futs = defect_runs(ctx, pool)
-    records = replay_graph(ctx, ctx.pick("Accel_mc.cfg", "Accel_mc5.cfg"), ctx.pick(9000, 150000), ctx.pick("depth 4", "depth 5"))
+    t0 = os.times()
+    records = replay_graph(ctx, ctx.pick("Accel_mc.cfg", "Accel_mc5.cfg"), ctx.pick(6000, 150000), ctx.pick("depth 4", "depth 5"))
     defect_replays(ctx, futs)
+    wtraces, wmeta = walks(ctx, ctx.pick(40, 1500), ctx.pick(12, 16), ctx.pick(5, 6))
+    t1 = os.times()
+    ctx.cov["replay_cpu_s"] = round((t1.children_user + t1.children_system + t1.user + t1.system)
+                                    - (t0.children_user + t0.children_system + t0.user + t0.system), 1)
+    # code -> spec: the states reached by the graph replay (answers only) and the walks (steps and answers)
+    straces, smeta = [], {}
+    for k, (real, ans_n, path) in enumerate(records):
+        act, args = RP.parse_label(path[-1])
+        straces.append({"tid": k + 1, "free": True,
+                        "steps": [{"act": TR.act_record(act, list(args)), "st": TR.st_record(real, 6),
+                                   "obs": TR.obs_record(ans_n, real["n"])}]})
+        smeta[k + 1] = path
+    asis = judge(ctx, straces, smeta, "states")
+    asis += judge(ctx, wtraces, wmeta, "walks")
+    ctx.cov["answers_matching_code_not_documentation"] = asis
     res = fut_mc.result()
     ctx.add_tlc(f"{mc_cfg} (all guards on: Transparent, Exact, RefsTransparent, StaleRejected)", res)
     pool.shutdown()
     ctx.cov["rule"] = ("one evaluation = one model transition executed on a real repository and observed by three readers "
                        "(long-lived, fresh with accelerators, fresh without); distinct = distinct (state, action, successor) "
-                       "transitions; all are non-trivial (each runs the full query battery on a non-empty history "
-                       "except the first step)")
+                       "transitions of the state graph plus distinct walks; all are non-trivial (each runs the full query "
+                       "battery on a non-empty history except the first step)")
     ctx.assumptions += [
-        "histories: <= 3 commits (each with a private tree and blob), 2 refs, <= 2 packs alive, behaviours of bounded depth",
+        "histories: <= 3 commits exhaustively (<= 6 in walks), each commit with a private tree and blob, 2 refs, <= 2 (3) packs alive, bounded depth",
         "timestamps increase with the commit number (clock skew is C13's subject)",
-        "C git 2.39.5 as writer of commit-graph, multi-pack-index, bitmaps (repack -adb), packed-refs, pack index v1/v2",
+        "C git 2.39.5 as writer of commit-graph, multi-pack-index, bitmaps (repack -adb), packed-refs",
+        "the long-lived reader is compared on objects that still exist (its open packs may outlive a prune: pack cache, not acceleration data)",
+        "get_reachable_commits(exclude)/get_reachable_objects of the graph-traversal provider are accepted with the meaning of the code OR of the documentation (they differ; counted in answers_matching_code_not_documentation)",
     ]
     return ctx.finish(exhaustive=False)
 
